@@ -2,6 +2,9 @@
 package pcommon
 
 import (
+	"fmt"
+	"os"
+	"runtime"
 	"testing"
 	"testing/synctest"
 	"time"
@@ -50,6 +53,23 @@ func AtVirtual(t *testing.T, offset time.Duration, f func()) {
 	}()
 	<-done
 	if pv != nil {
+		// the goroutines the bubble complains about still exist: show them
+		buf := make([]byte, 1<<20)
+		n := runtime.Stack(buf, true)
+		fmt.Fprintf(os.Stderr, "pcommon.AtVirtual: synctest panicked: %v\nall goroutines:\n%s\n", pv, buf[:n])
 		panic(pv)
+	}
+}
+
+// Teardown destroys a client inside a synctest bubble and waits until its background goroutines are gone. Destroy sets the
+// session end times to "now", which gives the renewal goroutine a zero-length timer next to the pending cancel: when its
+// select takes the timer and Destroy has not replaced the credentials yet, the goroutine logs in again and adds a session that
+// this Destroy call has already passed by. Such a session would sleep for hours of virtual time after the bubble's main
+// goroutine has returned ("deadlock: main bubble goroutine has exited but blocked goroutines remain"). A second Destroy, after
+// everything has come to rest, finds it; by then the credentials are gone and no further login can succeed.
+func Teardown(cl interface{ Destroy() }) {
+	for i := 0; i < 3; i++ {
+		cl.Destroy()
+		synctest.Wait()
 	}
 }
